@@ -32,6 +32,7 @@
 #include <signal.h>
 #include <unistd.h>
 #include <sys/socket.h>
+#include <sys/un.h>
 
 using namespace vp;
 using namespace mpt;
@@ -512,6 +513,8 @@ struct SMsg {
   // observed
   unsigned delivered = 0, replies = 0, explicit_ok = 0;
   bool had_ctx = false, second_accepted = false, held = false, garbled = false;
+  size_t peer = 0;                         // which client sent it (a connection can be re-targeted)
+  bool orphaned = false, discard = false;  // deferred when the connection left its peer; dispatched in the discard form
   int r1 = 1000, r2 = 1000;
   std::vector<uint8_t> reply_body;
 };
@@ -531,11 +534,13 @@ struct StreamWorld {
   mpt::stream *csrm = 0;
   CObj<connection> constore;
   int sfd = -1;
+  struct Peer { int fd; std::vector<uint8_t> rx; };
+  std::vector<Peer> peers;  // the last one is the current target
+  bool closed = false, discard_round = false;
   size_t idlen = 1;
   ref::Dialect dialect = ref::Cobs;
   std::vector<SMsg> msgs;
   std::vector<std::pair<CDetached *, size_t>> handles;  // deferred handle, message index
-  std::vector<uint8_t> rx;
   unsigned unknown_delivery = 0;
   uint8_t rawmsg[6] = {0x01, 0x07, 'r', 'a', 'w', '!'};
 
@@ -544,7 +549,7 @@ struct StreamWorld {
     for (auto &h : handles) h.first->vptr->reply(h.first, 0);
     if (in) in->vptr->meta.unref((CMeta *)in);
     if (con) mpt_connection_fini(con);
-    if (cfd >= 0) close(cfd);
+    for (auto &p : peers) if (p.fd >= 0) close(p.fd);
   }
 
   static int handler(void *arg, event *ev) {  // library frames above: record, never throw
@@ -584,41 +589,60 @@ struct StreamWorld {
     return s.hret;
   }
 
-  // the state mpt_connection_open() leaves behind for a stream target (it needs an address to connect to; the
-  // harness has a socketpair): malloc()ed stream, RdWr|Buffer, COBS both ways, out.sock inactive. The id length
-  // has no setter in the C API, the member is written directly.
+  // A connection is pointed at a peer with mpt_connection_open("Unix:<path>") — the harness listens on a socket file
+  // that exists only between bind() and accept(). The id length has no setter in the C sources, the member is
+  // written directly (as every embedding program has to).
+  void connect_peer() {
+    static unsigned counter = 0;
+    char path[96];
+    snprintf(path, sizeof path, "/tmp/vp-C12-%d-%u", (int)getpid(), ++counter);
+    struct Listener { int fd; const char *path; ~Listener() { if (fd >= 0) close(fd); unlink(path); } } l{::socket(AF_UNIX, SOCK_STREAM | SOCK_CLOEXEC, 0), path};
+    struct sockaddr_un a;
+    memset(&a, 0, sizeof a);
+    a.sun_family = AF_UNIX;
+    strcpy(a.sun_path, path);
+    unlink(path);
+    VP_CHECK(c, l.fd >= 0 && bind(l.fd, (struct sockaddr *)&a, sizeof a) == 0 && listen(l.fd, 1) == 0, "harness-socketpair", "cannot listen on %s", path);
+    std::string target = std::string("Unix:") + path;
+    int r = mpt_connection_open(con, target.c_str(), 0);
+    c.logf("mpt_connection_open(con, \"Unix:<socket of peer %zu>\") -> %d", peers.size(), r);
+    VP_CHECK(c, r >= 0, "create-refused", "mpt_connection_open returned %d", r);
+    int fd = accept4(l.fd, 0, 0, SOCK_NONBLOCK | SOCK_CLOEXEC);
+    VP_CHECK(c, fd >= 0, "harness-socketpair", "accept failed");
+    peers.push_back(Peer{fd, {}});
+    cfd = fd;
+    con->out._idlen = (uint8_t)idlen;
+    csrm = (mpt::stream *)cbuf(con->out.buf);
+    VP_CHECK(c, csrm && con->out.sock._id < 0, "create-refused", "mpt_connection_open(stream target) left no stream behind");
+    sfd = _mpt_stream_fread(&csrm->_info);
+    closed = false;
+  }
   void open_connection() {
     idlen = c.range(1, 8);
     dialect = ref::Cobs;
-    int sv[2];
-    VP_CHECK(c, socketpair(AF_UNIX, SOCK_STREAM | SOCK_NONBLOCK | SOCK_CLOEXEC, 0, sv) == 0, "harness-socketpair", "socketpair failed");
-    cfd = sv[1];
-    sfd = sv[0];
-    CObj<mpt::socket> sock;
-    sock->_id = sv[0];
-    CObj<mpt::stream> tmp;
-    tmp->_rd._state.data.msg = -1;
-    c.logf("connection over a stream (socketpair, RdWr|Buffer, COBS), id length %zu", idlen);
-    int r = mpt_stream_dopen(tmp, sock, mpt::stream::RdWr | mpt::stream::Buffer);
-    if (r < 0) close(sv[0]);
-    VP_CHECK(c, r >= 0, "create-refused", "mpt_stream_dopen returned %d", r);
-    tmp->_wd._enc = mpt_message_encoder(MPT_ENUM(EncodingCobs));
-    tmp->_rd._dec = mpt_message_decoder(MPT_ENUM(EncodingCobs));
-    csrm = (mpt::stream *)malloc(sizeof(mpt::stream));
-    memcpy((void *)csrm, (void *)tmp.get(), sizeof(mpt::stream));
     con = constore;
     con->out.sock._id = -1;
-    cbuf(con->out.buf) = (CBuf *)csrm;
-    con->out._idlen = (uint8_t)idlen;
+    c.logf("connection over a stream (COBS), id length %zu", idlen);
+    connect_peer();
+  }
+  // the connection leaves its peer: requests parked in deferred handles lose their transport
+  void leave_peer(bool reopen) {
+    for (auto &s : msgs) if (s.held && !s.orphaned) { s.orphaned = true; c.label("conn:deferred-request-orphaned"); }
+    if (reopen) { connect_peer(); c.label("conn:retarget"); return; }
+    mpt_connection_close(con);
+    c.logf("mpt_connection_close(con)");
+    closed = true;
+    c.label("conn:close");
   }
   void serve_connection() {  // output_remote.c: remoteNext() = mpt_stream_poll(stream, ready events, 0), remoteDispatch() = mpt_connection_dispatch()
+    if (closed) return;
     for (int guard = 0; guard < 64 && readable(sfd); guard++) {
       int r = mpt_stream_poll(csrm, POLLIN | POLLOUT, 0);
       c.logf("  mpt_stream_poll(POLLIN|POLLOUT, 0) -> %d", r);
       if (r < 0) break;
       for (int g2 = 0; g2 < 64; g2++) {
-        int d = mpt_connection_dispatch(con, handler, this);
-        c.logf("  mpt_connection_dispatch -> 0x%x", d);
+        int d = discard_round ? mpt_connection_dispatch(con, 0, 0) : mpt_connection_dispatch(con, handler, this);
+        c.logf("  mpt_connection_dispatch(%s) -> 0x%x", discard_round ? "con, NULL, NULL" : "con, handler", d);
         if (d < 0 || !(d & 0x10000 /* Retry */)) break;
       }
     }
@@ -639,6 +663,7 @@ struct StreamWorld {
     sock->_id = sv[0];
     c.logf("mpt_stream_input(socketpair, RdWr|Write|Buffer, %s, id length %zu)", inl ? "COBS/R" : "COBS", idlen);
     in = (CInput *)mpt_stream_input(sock, mpt::stream::RdWr | mpt::stream::Write | mpt::stream::Buffer, inl ? MPT_ENUM(EncodingCobsInline) : MPT_ENUM(EncodingCobs), idlen);
+    peers.push_back(Peer{cfd, {}});
     if (!in) close(sv[0]);
     VP_CHECK(c, in, "create-refused", "mpt_stream_input(id length %zu) returned NULL", idlen);
   }
@@ -681,9 +706,13 @@ struct StreamWorld {
   void note(Anomaly &a, int prio, const char *tag, const std::string &msg) { if (prio > a.prio) { a.prio = prio; a.tag = tag; a.msg = msg; } }
   // read everything the server sent, account every frame to a request
   void client_collect(Anomaly &a) {
+    for (size_t p = 0; p < peers.size(); p++) collect_peer(a, p);
+  }
+  void collect_peer(Anomaly &a, size_t pi) {
+    std::vector<uint8_t> &rx = peers[pi].rx;
     uint8_t buf[4096];
     for (int guard = 0; guard < 256; guard++) {
-      ssize_t r = read(cfd, buf, sizeof buf);
+      ssize_t r = read(peers[pi].fd, buf, sizeof buf);
       if (r <= 0) break;
       rx.insert(rx.end(), buf, buf + r);
     }
@@ -693,14 +722,15 @@ struct StreamWorld {
       std::vector<uint8_t> body;
       ref::Verdict v = ref::decode(dialect, rx.data() + start, i - start, body);
       std::string shown = hex(body.data(), body.size(), 40);
-      c.logf("  client got frame: %s%s", shown.c_str(), v == ref::WellFormed ? "" : " (malformed)");
+      c.logf("  client%s got frame: %s%s", peers.size() > 1 ? (" " + std::to_string(pi)).c_str() : "", shown.c_str(), v == ref::WellFormed ? "" : " (malformed)");
       start = i + 1;
       if (v != ref::WellFormed || body.size() < idlen) { note(a, 1, "stream-frame", "the server sent a frame that is not a well-formed message with an id: " + shown); continue; }
       std::vector<uint8_t> id(body.begin(), body.begin() + idlen);
       bool marked = id[0] & 0x80;
       id[0] &= 0x7f;
-      SMsg *rq = 0;
-      for (auto &s : msgs) if (s.kind == KRequest && s.delivered && s.id == id) rq = &s;
+      SMsg *rq = 0, *other = 0;
+      for (auto &s : msgs) if (s.kind == KRequest && s.id == id) { if (s.peer != pi) other = &s; else if (s.delivered || s.discard) rq = &s; }
+      if (!rq && other) { note(a, 7, "misdirected-reply", "peer " + std::to_string(pi) + " received the reply " + shown + " to request " + hex(other->id.data(), idlen) + ", which peer " + std::to_string(other->peer) + " had sent" + (other->orphaned ? " (its answer was deferred, then the connection was pointed at another peer)" : "")); continue; }
       if (!rq) { note(a, 5, "unsolicited-reply", "the server sent a frame with id " + hex(body.data(), idlen) + " (" + shown + "): no delivered request has that id" + (std::all_of(id.begin(), id.end(), [](uint8_t b) { return !b; }) ? " — zero id: a reply to a message that wants no answer" : "")); continue; }
       if (++rq->replies > 1) note(a, 4, "reply-twice", "request " + hex(rq->id.data(), idlen) + " got " + std::to_string(rq->replies) + " replies");
       if (!marked) note(a, 2, "reply-not-marked", "the reply to request " + hex(rq->id.data(), idlen) + " carries id bytes " + hex(body.data(), idlen) + ": the reply bit (top bit of the first byte) is not set, the peer reads it as a new request");
@@ -708,6 +738,7 @@ struct StreamWorld {
     }
     rx.erase(rx.begin(), rx.begin() + start);
   }
+  size_t first_of_peer(size_t p) const { for (size_t i = 0; i < msgs.size(); i++) if (msgs[i].peer == p) return i; return msgs.size(); }
   void settle(Anomaly &a, size_t from) {
     for (size_t i = from; i < msgs.size(); i++) {
       SMsg &s = msgs[i];
@@ -715,11 +746,17 @@ struct StreamWorld {
         if (s.delivered) note(a, 6, "stream-delivery", "reply-type message " + std::to_string(i) + " was dispatched as an event");
         continue;
       }
+      if (s.discard) {  // dispatched without handler: nothing is delivered, a request still gets its (empty) default reply
+        if (s.delivered) note(a, 6, "stream-delivery", "message " + std::to_string(i) + " reached a handler although it was dispatched in the discard form");
+        else if (s.kind == KRequest && !s.replies) note(a, 3, "reply-missing", "request " + hex(s.id.data(), idlen) + " dispatched with mpt_connection_dispatch(con, NULL, NULL)" + (i == first_of_peer(s.peer) ? " as the first message since the connection was opened" : "") + " got no default reply");
+        else if (s.kind == KRequest && s.replies == 1) c.label(s.reply_body.empty() ? "conn:discard-empty-reply" : "conn:discard-other-reply");
+        continue;
+      }
       if (s.delivered != 1) { note(a, 6, "stream-delivery", "message " + std::to_string(i) + " (" + s.payload + ") was delivered to the handler " + std::to_string(s.delivered) + " times"); continue; }
       if (s.garbled) note(a, 6, "stream-delivery", "message " + std::to_string(i) + " reached the handler with a different payload");
       if (s.kind != KRequest) continue;
       if (s.second_accepted) note(a, 4, "reply-not-refused", "request " + hex(s.id.data(), idlen) + ": the second reply() in the handler returned " + std::to_string(s.r2) + " after the first returned " + std::to_string(s.r1));
-      if (!s.held && s.replies == 0) note(a, 3, "reply-missing", "request " + hex(s.id.data(), idlen) + " (handler: " + kActionName[s.action] + ", returned " + std::to_string(s.hret) + ", reply context " + (s.had_ctx ? "handed out" : "NULL") + ") got no reply");
+      if (!s.held && !s.orphaned && s.replies == 0) note(a, 3, "reply-missing", "request " + hex(s.id.data(), idlen) + " (handler: " + kActionName[s.action] + ", returned " + std::to_string(s.hret) + ", reply context " + (s.had_ctx ? "handed out" : "NULL") + ") got no reply");
       if (s.replies == 1 && s.explicit_ok) {
         std::vector<uint8_t> want;
         if (s.action == ARawReply || s.action == AReplyTwice) want.assign(rawmsg, rawmsg + sizeof rawmsg);
@@ -736,6 +773,22 @@ struct StreamWorld {
   }
 };
 
+// deferred handles (none with a context that cannot defer): answer now or keep
+static void answer_deferred(Ctx &c, StreamWorld &w) {
+  for (size_t h = 0; h < w.handles.size();) {
+    if (!c.flip()) { ++h; continue; }
+    message r(w.rawmsg, 2);
+    SMsg &s = w.msgs[w.handles[h].second];
+    bool with_msg = c.flip();
+    int ret = w.handles[h].first->vptr->reply(w.handles[h].first, with_msg ? &r : 0);
+    c.logf("deferred reply for message %zu%s -> %d", w.handles[h].second, s.orphaned ? " (the connection has left its peer since)" : "", ret);
+    if (with_msg && ret < 0) { ++h; c.label("stream:deferred-reply-rejected"); continue; }  // the handle stays for a retry or the release
+    s.held = false;
+    w.handles.erase(w.handles.begin() + h);
+    c.label(s.orphaned ? "conn:late-deferred-reply" : "stream:deferred-reply");
+  }
+}
+
 static void stream_history(Ctx &c, bool connection = false) {
   signal(SIGPIPE, SIG_IGN);
   StreamWorld w(c);
@@ -745,8 +798,18 @@ static void stream_history(Ctx &c, bool connection = false) {
   VP_CHECK(c, sfd >= 0, "harness-socketpair", "stream input does not report its descriptor");
   unsigned defaults = 0, explicits = 0, after_default = 0;
   while (c.more() && w.msgs.size() < 100) {
+    w.discard_round = false;
+    if (connection) {  // new draws only here: the decoding of the stream-input cases (0xd0..) stays as it was
+      switch (w.handles.empty() ? c.weighted({10, 2, 1, 3}) : c.weighted({5, 6, 2, 3})) {  // leave the peer more often while answers are parked
+        case 1: w.leave_peer(true); break;
+        case 2: if (!w.closed) w.leave_peer(false); break;
+        case 3: w.discard_round = true; c.label("conn:discard-round"); break;
+        default: break;
+      }
+      if (w.closed) { if (c.flip()) w.connect_peer(); else { answer_deferred(c, w); continue; } }
+    }
     size_t from = w.msgs.size(), k = c.range(1, 4);
-    c.logf("-- round: %zu message(s)", k);
+    c.logf("-- round: %zu message(s)%s", k, w.discard_round ? ", dispatched in the discard form" : "");
     for (size_t j = 0; j < k && w.msgs.size() < 100; j++) {
       SMsg s;
       size_t idx = w.msgs.size();
@@ -766,6 +829,8 @@ static void stream_history(Ctx &c, bool connection = false) {
       s.hret = s.action == AFail ? -(int)c.range(1, 5) : c.chance(40) ? -(int)c.range(1, 5) : 0;
       s.code = (int)c.range(0, 6) - 3;
       s.defer_then_reply = c.flip();
+      s.peer = w.peers.size() - 1;
+      s.discard = w.discard_round;
       c.logf("client sends %s id %s payload '%s'   handler: %s, returns %d", s.kind == KRequest ? "request" : s.kind == KOneWay ? "one-way message" : "reply-type message", hex(s.id.data(), w.idlen).c_str(), s.payload.c_str(), kActionName[s.action], s.hret);
       w.msgs.push_back(s);
       w.client_send(w.msgs.back());
@@ -780,16 +845,7 @@ static void stream_history(Ctx &c, bool connection = false) {
       if (w.msgs[i].kind != KRequest) continue;
       if (w.msgs[i].explicit_ok) ++explicits; else if (!w.msgs[i].held) ++defaults;
     }
-    // deferred handles (none with a context that cannot defer): answer now or keep
-    for (size_t h = 0; h < w.handles.size();) {
-      if (!c.flip()) { ++h; continue; }
-      message r(w.rawmsg, 2);
-      int ret = w.handles[h].first->vptr->reply(w.handles[h].first, c.flip() ? &r : 0);
-      c.logf("deferred reply for message %zu -> %d", w.handles[h].second, ret);
-      w.msgs[w.handles[h].second].held = false;
-      w.handles.erase(w.handles.begin() + h);
-      c.label("stream:deferred-reply");
-    }
+    answer_deferred(c, w);
   }
   // release what is left and look once more: nothing but the replies of the deferred requests may arrive
   while (!w.handles.empty()) { w.handles.back().first->vptr->reply(w.handles.back().first, 0); w.msgs[w.handles.back().second].held = false; w.handles.pop_back(); }
@@ -1053,7 +1109,8 @@ static Target t = {
     "messages (request with non-zero id / one-way with zero id / reply-type, text payload 5..65 bytes), handler per message: nothing, fail, mpt_context_reply, reply(msg), reply twice, defer; "
     "the client decodes every frame the server sends with the reference COBS codec and accounts it to a delivered request. "
     "(d) [0xc0..0xc7] the same client against a connection over a stream (state of mpt_connection_open: RdWr|Buffer, COBS; served like output_remote.c: mpt_stream_poll(events, 0) + mpt_connection_dispatch), "
-    "handler may really defer; (e) [0xc8..0xcb] mpt_stream_reply on a memory stream with a fixed 12..400 byte output area (replies that fit / do not fit, unfinished application messages in between), "
+    "handler may really defer; between rounds the connection may be opened to another harness peer (mpt_connection_open on a transient unix socket) or closed while deferred handles are outstanding, "
+    "and a round may be dispatched in the discard form mpt_connection_dispatch(con, NULL, NULL); every peer accounts the frames it receives; (e) [0xc8..0xcb] mpt_stream_reply on a memory stream with a fixed 12..400 byte output area (replies that fit / do not fit, unfinished application messages in between), "
     "output decoded with the reference codec; (f) [0xcc..0xcf] mpt_stream_sync with a fallback + 1..5 waiting commands, peer writes 1..3 reply frames per round (waiting, answered, unknown ids). "
     "exhaustive: all ids with <= 2 significant bytes x widths 0..9. non-trivial: (a) round trip at width >= 2 or id within 2 of a reply-bit boundary or a refused 9+ byte header; "
     "(b) at least one accepted send and at least one of {defer, refused second reply, retry after rejection, default reply on release}; "
